@@ -193,6 +193,10 @@ def run(ctx):
         put(ctx, "gen_real.cfg", cfg_text(dict(REAL, Kinds=k), props=False, view=False, envout=True))
         r = ctx.tlc("PadStreamImpl", "gen_real.cfg", workers=1, simulate="num=%d" % nreal, depth=400, count=False, timeout=1500)
         er += markers(r["out"], "ENV")
+    # the writer fed with everything at once (one Write far larger than its internal buffers), then Final
+    put(ctx, "gen_big.cfg", cfg_text(dict(REAL, Kinds='{"writer"}', DataLens="{1025, 1040, 1041, 1500, 2049, 3000, 4999}", Reqs="{9999}"), props=False, view=False, envout=True))
+    r = ctx.tlc("PadStreamImpl", "gen_big.cfg", workers=1, simulate="num=%d" % (200 if thorough else 60), depth=400, count=False, timeout=1500)
+    er += markers(r["out"], "ENV")
     if len(es) < 2 * nsmall or len(er) < 2 * nreal:
         raise Infra("too few environments generated: %d small, %d real" % (len(es), len(er)))
     model = {}
